@@ -22,6 +22,7 @@ from sa import core
 from sa import pat
 from sa import tpl
 from sa import rules_df
+from sa import rules_trav
 from sa import setalg
 from sa.formula import atom, implies, equivalent, TRUE
 from sa.props import C05 as _c05
@@ -70,6 +71,8 @@ def check(model, rep, tier):
   rep.rule('LV-BLOCK', 'block-level live sets', floor=8)
   rep.rule('LV-HEADER', 'for header carries the target assignment', floor=2)
   rep.rule('LV-ASDL', 'field types', floor=8)
+  rep.rule('LV-ANNOT', 'the annotators reach every statement (and every nested '
+           'function) of the tree', floor=8)
 
   vn, ev, env = eval_liveness(model)
   rules_df.check_join_loop(rep, 'LV-JOIN', vn, 'next', 'in_',
@@ -275,6 +278,14 @@ def check(model, rep, tier):
             'the CFG must use node.iter as the loop header node', line=cvf.node.lineno)
 
   _c05.asdl_rule(model, rep, 'LV-ASDL', [LV, RF])
+
+  # ---------------------------------------------------------------- LV-ANNOT
+  STMT_KINDS = ('If', 'For', 'While', 'Try', 'With', 'FunctionDef', 'Lambda',
+                'ExceptHandler', 'Expr', 'Assign', 'Return')
+  for rel_, cn_ in ((LV, 'TreeAnnotator'), (RF, 'TreeAnnotator')):
+    rules_trav.analysis_trav(model, rep, 'LV-ANNOT', rel_, cn_, {
+        ('FunctionDef', 'type_params'): 'PEP 695, outside the subset'},
+                             kinds=STMT_KINDS)
 
   # ---------------------------------------------------------------- dependencies
   rep.depends('C05', ['CFG-STMT', 'CFG-PAIR', 'CFG-TRY', 'CFG-SCOPE', 'CFG-KEYED', 'CFG-JUMP', 'CFG-LEAVES'],
